@@ -58,6 +58,24 @@ CLAIMED = {
    design_ref="DESIGN.md 3.5, 4.4, 5 (C12)",
    note="Trusted: spec() and the polynomial normaliser, the interpreters (unknown construct = exit 2).",
    technique="finite-domain constant propagation with polynomial (ring) normalisation of value expressions"),
+ "C03": dict(
+   category="other",
+   text="Structural necessary conditions of the tree invariants, decided from the code of both implementations: split thresholds (leaf > max_leaf_size, interior child > max_internal_size, root >= 2*max_internal_size, each wired to the attribute of the right child kind, non-positive sizes rejected) and default split points (len/2) are extracted as fact tables from all 22 translation units and from _base.py and compared with the specification; the delete path's 'first bucket went away' status is shown (flag-sensitive dataflow in C, path enumeration in Python) never to be returned after this frame already relinked the predecessor leaf. It does NOT decide that _check()/check() succeed after every step of every history: that quantifies over reachable shapes and is outside static analysis.",
+   design_ref="DESIGN.md 4.4, 5 (C03)",
+   note="Necessary conditions only. An unrecognised shape of the size tests is exit 2, not a pass.",
+   technique="fact-table extraction from clang AST / Python ast + flag-sensitive dataflow on the unlink status"),
+ "C09": dict(
+   category="other",
+   text="Agreement of the C and Python implementations on the structural points the property names, decided from source: Python taint analysis of every key/value parameter of the shared public methods (converted before the conversion-free layer; reads translate the conversion TypeError to absence); C flag-sensitive dataflow (no node mutation after a failed conversion, no conversion failure after a mutation, first-leaf rollback on every later error exit) and an abstract pending-exception dataflow with per-call-site summaries showing that after a failed conversion [] exits with KeyError, get with the default, in/has_key with false, and writes with TypeError; agreement tables: resolved C slot types vs Python struct formats, family registries, per-family module-function inventory, split thresholds and split points. Equality of results, shapes and pickles over call histories is not decided.",
+   design_ref="DESIGN.md 4.5, 5 (C09)",
+   note="Assumes the layers pass the same key object down (a conversion that succeeded in the caller cannot fail in the callee). Known findings: C __setstate__ empties the container before converting (3 entries).",
+   technique="taint analysis (Python ast), flag/exception-state dataflow with call-site summaries (clang AST), table agreement"),
+ "C13": dict(
+   category="other",
+   text="Guard-dominates-store dataflow over every function of the 22 translation units that calls a CPython converter: on every path to a store into a key/value slot the converter's error indicator has been tested and every narrowing conversion has passed a round-trip/sign test; wrapping converter variants are forbidden; byte-string slots (fs) are filled only under an exact type+length test; no node mutation on a path with conversion status 0 and no conversion failure after a mutation; resolved C slot types equal the Python struct formats; Python key/value parameters pass _to_key/_to_value before the conversion-free layer and the native datatype validates by struct packing and returns the normalised value on every path. Decides 'rejected before modified / never truncated or wrapped' structurally for every family; value-by-value read-back equality is not decided.",
+   design_ref="DESIGN.md 4.5, 5 (C13)",
+   note="Known findings (genuine, recorded): float32 overflow stores inf, C __setstate__ empties before converting, Python __setstate__ stores unconverted data.",
+   technique="guard-dominates-store dataflow on clang AST CFGs, taint analysis on Python ast, type-table agreement"),
 }
 
 NA_PENDING = "check not built yet (engine under construction); see DESIGN.md section 11"
